@@ -298,7 +298,21 @@ pub fn gen_fan(t: &mut Tape) -> Scenario {
             let o = g.add_source(par2, n2, 3);
             let o = if g.t.draw(3) == 2 { g.un(o, UnOp::Map(MapFn::Add(1))) } else { o };
             // sequential variant: both inputs are single-replica chains
-            if g.t.draw(2) == 1 {
+            let variant = g.t.draw(4);
+            if variant == 3 {
+                // both inputs come straight from blocks with a limited replication: the zip block
+                // still has one replica
+                let k = 2 + g.t.draw(3) as u64;
+                let a = g.unlimited(s);
+                let b = g.unlimited(o);
+                let a = g.un(a, UnOp::Repl(Repl::Limited(k)));
+                // (renoir requires the same replication on both inputs of a binary operator)
+                let b = g.un(b, UnOp::Repl(Repl::Limited(k)));
+                g.steps.push(Step::Bin(a, b, BinOp::Zip));
+                g.attrs[a].take();
+                g.attrs[b].take();
+                g.attrs.push(Some(Attr { repl: Repl::One, depth: 0, len: 0, keys: 1 }));
+            } else if variant == 1 {
                 let a = g.un(s, UnOp::Repl(Repl::One));
                 let b = g.un(o, UnOp::Repl(Repl::One));
                 // equal replication requirement (One) on both sides
